@@ -146,10 +146,9 @@ def boolham_rows(cirq, rng, per):
                 continue
             raise
         coq_es = '[' + '; '.join(bexp_coq(e) for e in es) + ']'
-        doc = f'(spec_BoolHam FOps {nat(n)} {coq_es} {fc(unit(t / 2))})'          # class docstring: e^{+i t/2 sum f_k}
-        conv = f'(spec_BoolHam FOps {nat(n)} {coq_es} {fc(unit(-t / 2))})'        # __init__ docstring's sign, up to phase
-        checks = [('doc', f'fcll_close {TOL} {doc} {fmat(u)}'),
-                  ('conv', f'fcll_close_phase {TOL} {fmat(u)} {conv}'),
+        # both docstrings (after the repair of /repo): sum_x e^{-i t/2 sum_k f_k(x)} |x><x| up to a global phase
+        conv = f'(spec_BoolHam FOps {nat(n)} {coq_es} {fc(unit(-t / 2))})'
+        checks = [('conv', f'fcll_close_phase {TOL} {fmat(u)} {conv}'),
                   ('shape', 'true' if tuple(cirq.qid_shape(g)) == (2,) * n else 'false')]
         rows.append(row('more:BooleanHamiltonian', [names, strs, t], u, checks,
                         f'cirq.unitary(BooleanHamiltonianGate({names}, {strs}, {t}))', kind='boolham'))
